@@ -919,16 +919,19 @@ class Frame:
             raise Unsupported("range-for shape")
         rv = ds[0]["inner"][0]
         src = self.expr(rv["inner"][-1])
-        if src.k != "pts":
-            raise Unsupported("range-for over something else than a point set")
+        if src.k not in ("pts", "corr"):
+            raise Unsupported("range-for over something else than a point set / the correspondences")
         lv = ds[-1]["inner"][0]
         if self.assigns(parts[-1], lv["id"]):
             raise Unsupported("range-for variable assigned in the body")
         saved_ids = set(self.locals)
         var = self.g.fresh("e_" + lv.get("name", "x"))
         self.names[lv["id"]] = lv.get("name", "x")
-        elem = M(src.r, 1, [["(vcomp N %s %d)" % (var, i)] for i in range(src.r)])
-        self.fold(parts[-1], src.t, var, "list T", lambda: self.locals.__setitem__(lv["id"], elem), saved_ids)
+        if src.k == "pts":
+            elem, ety = M(src.r, 1, [["(vcomp N %s %d)" % (var, i)] for i in range(src.r)]), "list T"
+        else:
+            elem, ety = V("celem", t=var), "(nat * nat)%type"
+        self.fold(parts[-1], src.t, var, ety, lambda: self.locals.__setitem__(lv["id"], elem), saved_ids)
         for i in list(self.locals):
             if i not in saved_ids:
                 del self.locals[i]
